@@ -981,6 +981,15 @@ theorem C32_meta_list_size (cfg : MetaCfg) (mf mf' : MFramer) (inp rest : Bytes)
     (h : readFrameM cfg mf inp = (.mh fh pr fs t, mf', rest)) : sumSize fs ≤ cfg.maxList :=
   readFrameM_list_size cfg mf mf' inp rest fh pr fs t hc h
 
+/-- **C32 (readMetaFrame, field validity and order)**: every field of a returned MetaHeadersFrame has a
+    valid value and (unless it is a pseudo header) a valid lower-case token name; no pseudo header field
+    follows a regular one (`Ordered` on the reversed list); and the pseudo set passes `checkPseudos`
+    (known names, no duplicate, not request and response mixed). -/
+theorem C32_meta_fields_valid (cfg : MetaCfg) (mf mf' : MFramer) (inp rest : Bytes) (fh : FH) (pr : Prio)
+    (fs : List Field) (t : Bool) (h : readFrameM cfg mf inp = (.mh fh pr fs t, mf', rest)) :
+    (∀ f ∈ fs, FieldOK f) ∧ Ordered fs.reverse ∧ pseudoOK fs = true :=
+  readFrameM_fields cfg mf mf' inp rest fh pr fs t h
+
 /-! Non-vacuity -/
 example : expectRT (.headers 3 true false 2 ⟨1, true, 200⟩ [1, 2, 3]) =
     some (.headers ⟨1, 41, 11, 3⟩ ⟨1, true, 200⟩ [1, 2, 3]) := by decide
